@@ -1,0 +1,18 @@
+//! Verification hooks (compiled only with `--cfg kira_verif`).
+//!
+//! Thin public wrappers over crate-private items so that the verification
+//! harness in `/verif` can drive components in isolation. Nothing here
+//! changes behaviour; with the cfg off this module does not exist.
+#![allow(missing_docs)]
+
+use crate::{Easing, Tween};
+
+/// `Easing::apply`
+pub fn easing_apply(easing: Easing, x: f64) -> f64 {
+	easing.apply(x)
+}
+
+/// `Tween::value`
+pub fn tween_value(tween: &Tween, time: f64) -> f64 {
+	tween.value(time)
+}
